@@ -15,13 +15,13 @@ RULE = (
     'surrounding whitespace incl. \\n and exotic spaces, country/format prefixes added/stripped/lower-cased/'
     'followed by newline, every ASCII separator and whitespace character inserted at every position, every key '
     'of stdnum.util._char_map inserted at every position and substituted for its ASCII equivalent, whole-number '
-    'look-alike respelling, separators/whitespace REPLACING a character (optionally with one re-randomised digit), second-order decorations of accepted presentations, common.mutations) x every '
+    'look-alike respelling, separators/whitespace REPLACING a character (optionally with one re-randomised digit), second-order decorations of accepted presentations, common.mutations, every digit/A/X inserted or substituted and every character deleted at every position of the first numbers) x every '
     'keyword option set of validate.  For each accepted x (v = validate(x, **o) returned a str): '
     'validate(v, **o) must return exactly v, and v == v.strip().  ' + G.NONTRIVIAL_RULE)
 
 PARAMS = {
-    'quick': dict(full=0, dense=5, light=60, mutations=3, double=8, sepsubst=3, sepsubst_rand=2),
-    'thorough': dict(full=10, dense=40, light=400, mutations=10, double=60, sepsubst=12, sepsubst_rand=6),
+    'quick': dict(full=0, dense=5, light=60, mutations=3, double=8, sepsubst=3, sepsubst_rand=2, near=3),
+    'thorough': dict(full=10, dense=40, light=400, mutations=10, double=60, sepsubst=12, sepsubst_rand=6, near=16),
 }
 EXPECT = 'validate(v, **o) == v and v == v.strip() for v = validate(x, **o)'
 
@@ -51,7 +51,7 @@ def _worker(task):
     modname, part, nparts, seed, tier = task
     mod = common.module(modname)
     sc = G.budget_scale(mod)
-    P = G.scaled_params(PARAMS[tier], sc)
+    P = G.scaled_params(PARAMS[tier], sc, tier)
     rng = G.task_rng(seed, PROPERTY, modname, part)
     fnd, st = G.Findings(), G.Stats()
     rf = G.relfile(mod)
@@ -69,7 +69,7 @@ def _worker(task):
         if o[0] == 'ok' and isinstance(o[1], str):
             for site, observed, relation in _check_value(mod, rf, o[1], kw):
                 nviol += 1
-                fnd.add(modname, 'validate', site, len(x) + len(kw), repr((x, G.kw_key(kw)))[:300],
+                fnd.add(modname, 'validate', site, G.wsize(kw, x), repr((x, G.kw_key(kw)))[:300],
                         lambda: G.make_case(modname, 'validate', [x], kw, observed, EXPECT, site, relation,
                                             generator=gen))
             if len(accepted_pool) < 4000:
@@ -108,6 +108,14 @@ def _worker(task):
                         check('option:' + ','.join(sorted(kw)), y, kw)
         for y in common.mutations(rng, v, P['mutations']):
             check('mutation', y, {})
+        if gidx < P['near']:        # single edits that happen to be accepted are valid numbers outside the corpus
+            for i in range(len(v) + 1):
+                for ch in '0123456789AX':
+                    check('near-valid', v[:i] + ch + v[i:], {})
+                    if i < len(v) and ch != v[i]:
+                        check('near-valid', v[:i] + ch + v[i + 1:], {})
+                if i < len(v):
+                    check('near-valid', v[:i] + v[i + 1:], {})
     # separators/whitespace REPLACING a character (an inner validator may strip what the outer one keeps);
     # with and without re-randomised digits so that a check digit can come out right by chance
     seps = common.SEPARATORS + common.WHITESPACE
